@@ -39,20 +39,55 @@ func propC03(c *Ctx) {
 	var eqFalse, eqTrue []Edge
 	var eqCall *ssa.Call
 	var firstSlice ssa.Value
-	for _, ci := range callsNamed(ld, "bytes.Equal") {
-		call := ci.(*ssa.Call)
-		a0, a1 := stripConv(call.Call.Args[0]), stripConv(call.Call.Args[1])
-		other := a1
-		if a1 == localHash {
-			other = a0
-		} else if a0 != localHash {
+	// what load is handed as the recorded hash: its []byte parameter, or the []byte field of the
+	// position it is handed as a whole
+	isRecordedHash := func(op eqOperand) bool {
+		if op.val != nil && localHash != nil && op.val == ssa.Value(localHash) {
+			return true
+		}
+		root := stripConv(op.root)
+		if al, ok := root.(*ssa.Alloc); ok {
+			if cv := cellValue(al); cv != nil {
+				root = stripConv(cv)
+			}
+		}
+		if u, ok := root.(*ssa.UnOp); ok && u.Op == token.MUL {
+			if al, ok := u.X.(*ssa.Alloc); ok {
+				if cv := cellValue(al); cv != nil {
+					root = stripConv(cv)
+				}
+			}
+		}
+		p, ok := root.(*ssa.Parameter)
+		if !ok || p.Parent() != ld {
+			return false
+		}
+		if localHash != nil && p == localHash && len(op.chain) == 0 {
+			return true
+		}
+		if _, isSt := p.Type().Underlying().(*types.Struct); isSt && len(op.chain) == 1 {
+			if sl, ok := op.chain[0].Type().Underlying().(*types.Slice); ok {
+				if b, ok := sl.Elem().Underlying().(*types.Basic); ok && b.Kind() == types.Byte {
+					return true
+				}
+			}
+		}
+		return false
+	}
+	for _, cmp := range eqComparisonsIn([]*ssa.Function{ld}) {
+		var other eqOperand
+		switch {
+		case isRecordedHash(cmp.ops[0]):
+			other = cmp.ops[1]
+		case isRecordedHash(cmp.ops[1]):
+			other = cmp.ops[0]
+		default:
 			continue
 		}
-		root, chain := fieldChain(other)
-		if !chainIs(chain, fHeader, fParent) {
+		if !chainIs(other.chain, fHeader, fParent) {
 			continue
 		}
-		s, idx, ok := elemOf(root)
+		s, idx, ok := elemOf(other.root)
 		if !ok {
 			continue
 		}
@@ -60,8 +95,8 @@ func propC03(c *Ctx) {
 			continue
 		}
 		firstSlice = s
-		eqCall = call
-		t, f := boolEdges(call)
+		eqCall = cmp.call
+		t, f := boolEdges(cmp.call)
 		eqTrue, eqFalse = append(eqTrue, t...), append(eqFalse, f...)
 	}
 	c.Check("R3.1", "load/compare-localHash-with-first-parent", ld.Pos(), eqCall != nil, "load compares its localHash parameter with blocks[0].Header.Parent")
@@ -734,17 +769,14 @@ func linkageEveryPair(c *Ctx, sp linkageSpec) (bool, string) {
 	var linkOK bool
 	var undecided []*ssa.Call
 	linkDetail := "no comparison of a block's parent hash with the hash of the block before it found"
-	for _, ci := range reg.Calls() {
-		call, isCall := ci.(*ssa.Call)
-		if !isCall || calleeName(call) != "bytes.Equal" {
-			continue
-		}
+	for _, cmp := range eqComparisonsIn(reg.Funcs()) {
+		call := cmp.call
 		var parentIdx, hashIdx ssa.Value
 		var hashWalk *walker
 		shifted := false
-		for _, a := range call.Call.Args {
-			a = stripConv(a)
-			if root, chain := fieldChain(a); chainIs(chain, fHeader, fParent) {
+		for _, op := range cmp.ops {
+			a := op.val
+			if root, chain := op.root, op.chain; chainIs(chain, fHeader, fParent) {
 				if idx, ok := elemIdx(root); ok {
 					parentIdx = idx
 				}
@@ -753,16 +785,20 @@ func linkageEveryPair(c *Ctx, sp linkageSpec) (bool, string) {
 					hashIdx = idx
 				}
 			}
-			if recv, ok := valueMethodArg(a, "eth", "Block", "Hash"); ok {
-				if idx, ok := elemIdx(recv); ok {
-					hashIdx = idx
+			if a != nil {
+				if recv, ok := valueMethodArg(a, "eth", "Block", "Hash"); ok {
+					if idx, ok := elemIdx(recv); ok {
+						hashIdx = idx
+					}
 				}
 			}
 			// the hash side through a pointer that is advanced by the loop
 			if hashIdx == nil && hashWalk == nil {
-				root, chain := fieldChain(a)
-				if recv, ok := valueMethodArg(a, "eth", "Block", "Hash"); ok {
-					root, chain = recv, []*types.Var{fHeader, fHash}
+				root, chain := op.root, op.chain
+				if a != nil {
+					if recv, ok := valueMethodArg(a, "eth", "Block", "Hash"); ok {
+						root, chain = recv, []*types.Var{fHeader, fHash}
+					}
 				}
 				if chainIs(chain, fHeader, fHash) || chainIs(chain, fHash) {
 					if wk, ok := movingPtr(root); ok {
@@ -785,17 +821,18 @@ func linkageEveryPair(c *Ctx, sp linkageSpec) (bool, string) {
 			// a parent hash is compared with a block hash, but which elements these are cannot be read
 			// (e.g. a walk that re-slices the sequence): not decided, provided a mismatch is an error
 			var hasParent, hasHash bool
-			for _, a := range call.Call.Args {
-				a = stripConv(a)
-				_, chain := fieldChain(a)
+			for _, op := range cmp.ops {
+				chain := op.chain
 				if len(chain) >= 2 && chain[len(chain)-2] == fHeader && chain[len(chain)-1] == fParent {
 					hasParent = true
 				}
 				if len(chain) >= 2 && chain[len(chain)-2] == fHeader && chain[len(chain)-1] == fHash {
 					hasHash = true
 				}
-				if _, ok := valueMethodArg(a, "eth", "Block", "Hash"); ok {
-					hasHash = true
+				if op.val != nil {
+					if _, ok := valueMethodArg(op.val, "eth", "Block", "Hash"); ok {
+						hasHash = true
+					}
 				}
 			}
 			if hasParent && hasHash {
@@ -1120,4 +1157,197 @@ func getterFuncs(v ssa.Value) []*ssa.Function {
 		return out
 	}
 	return nil
+}
+
+// ---- a comparison of two byte strings made by a small boolean helper ------------------------
+//
+// `func (p position) linksTo(b *eth.Block) bool { return len(b.Header.Parent) != 32 || bytes.Equal(p.hash, b.Header.Parent) }`
+// called from several places: the helper's one bytes.Equal is described by the parameters its
+// operands are read from, and stands at every call of the helper with the call's arguments in
+// their place.  false ⇒ the strings differ; true ⇒ they are equal or the comparison was skipped
+// because a length test (the "no parent hash" escape) said so.
+
+type eqOperand struct {
+	val   ssa.Value    // the value itself, when there is one in the calling function
+	root  ssa.Value    // what the field chain starts from
+	chain []*types.Var // fields read from root
+}
+
+type eqComparison struct {
+	call *ssa.Call // bytes.Equal itself, or the call of the helper that makes the comparison
+	ops  [2]eqOperand
+}
+
+type eqHelperSummary struct {
+	param [2]int
+	chain [2][]*types.Var
+}
+
+var eqHelperMemo = map[*ssa.Function]*eqHelperSummary{}
+
+func eqHelperOf(h *ssa.Function) *eqHelperSummary {
+	if v, ok := eqHelperMemo[h]; ok {
+		return v
+	}
+	eqHelperMemo[h] = nil
+	if h == nil || h.Blocks == nil || h.Signature.Results().Len() != 1 || !isBoolType(h.Signature.Results().At(0).Type()) {
+		return nil
+	}
+	var eq *ssa.Call
+	n := 0
+	for _, ci := range callsIn(h) {
+		if call, ok := ci.(*ssa.Call); ok && calleeName(call) == "bytes.Equal" {
+			eq = call
+			n++
+		}
+	}
+	if n != 1 {
+		return nil
+	}
+	sum := &eqHelperSummary{}
+	for k := 0; k < 2; k++ {
+		root, chain := fieldChain(eq.Call.Args[k])
+		root = stripConv(root)
+		if al, ok := root.(*ssa.Alloc); ok {
+			if cv := cellValue(al); cv != nil {
+				root = stripConv(cv)
+			}
+		}
+		p, ok := root.(*ssa.Parameter)
+		if !ok || p.Parent() != h || len(chain) == 0 {
+			return nil
+		}
+		sum.param[k], sum.chain[k] = paramIndex(p), chain
+	}
+	// false only when the strings differ; true only when they are equal or a length test skipped the comparison
+	eqT, _ := boolEdges(eq)
+	var lenEdges []Edge
+	allInstrs(h, func(in ssa.Instruction) {
+		b, ok := in.(*ssa.BinOp)
+		if !ok || (b.Op != token.EQL && b.Op != token.NEQ) {
+			return
+		}
+		if _, isLen := lenArg(b.X); !isLen {
+			return
+		}
+		if _, isC := constInt(b.Y); !isC {
+			return
+		}
+		t, f := boolEdges(b)
+		lenEdges = append(lenEdges, t...)
+		lenEdges = append(lenEdges, f...)
+	})
+	for _, r := range returnsOf(h) {
+		for _, lf := range phiLeaves(returnValues(r)[0]) {
+			if lf.Val == ssa.Value(eq) {
+				continue
+			}
+			k, isC := lf.Val.(*ssa.Const)
+			if !isC || k.Value == nil {
+				return nil
+			}
+			guards := append(append([]Edge{}, lenEdges...), eqT...)
+			if k.Value.String() == "true" {
+				ok := false
+				if lf.Phi != nil && lf.Pred != nil {
+					ok = edgeGuarded(h, lf.Pred, lf.Phi.Block(), guards)
+				} else {
+					ok = guardedByEdges(h, r, guards)
+				}
+				if !ok {
+					return nil
+				}
+				continue
+			}
+			// a constant false: only behind "Equal said no"
+			_, eqF := boolEdges(eq)
+			ok := false
+			if lf.Phi != nil && lf.Pred != nil {
+				ok = edgeGuarded(h, lf.Pred, lf.Phi.Block(), eqF)
+			} else {
+				ok = guardedByEdges(h, r, eqF)
+			}
+			if !ok {
+				return nil
+			}
+		}
+	}
+	eqHelperMemo[h] = sum
+	return sum
+}
+
+// eqComparisonsIn: the byte-string comparisons made in the functions given: bytes.Equal calls and
+// calls of helpers that make one (with the arguments substituted; a struct literal argument is
+// looked through to the value stored in the field that is read)
+func eqComparisonsIn(fns []*ssa.Function) []eqComparison {
+	var out []eqComparison
+	for _, fn := range fns {
+		for _, ci := range callsIn(fn) {
+			call, ok := ci.(*ssa.Call)
+			if !ok {
+				continue
+			}
+			if calleeName(call) == "bytes.Equal" {
+				var c eqComparison
+				c.call = call
+				for k := 0; k < 2; k++ {
+					a := stripConv(call.Call.Args[k])
+					r, ch := fieldChain(a)
+					c.ops[k] = eqOperand{a, r, ch}
+				}
+				out = append(out, c)
+				continue
+			}
+			h := staticCallee(call)
+			if h == nil || !isRepoFunc(h) {
+				continue
+			}
+			sum := eqHelperOf(h)
+			if sum == nil {
+				continue
+			}
+			var c eqComparison
+			c.call = call
+			good := true
+			for k := 0; k < 2; k++ {
+				if sum.param[k] >= len(call.Call.Args) {
+					good = false
+					break
+				}
+				arg := stripConv(call.Call.Args[sum.param[k]])
+				chain := sum.chain[k]
+				// a struct literal built for the call (prev := position{…, blocks[i-1].Hash()}): the field's value
+				if u, isU := arg.(*ssa.UnOp); isU && u.Op == token.MUL {
+					if al, isAl := u.X.(*ssa.Alloc); isAl && len(chain) >= 1 {
+						var stored ssa.Value
+						nSt := 0
+						for _, ref := range *al.Referrers() {
+							if fa, isFA := ref.(*ssa.FieldAddr); isFA {
+								if ff, _ := fieldOf(fa); ff == chain[0] {
+									for _, r2 := range *fa.Referrers() {
+										if st, isSt := r2.(*ssa.Store); isSt && st.Addr == ssa.Value(fa) {
+											stored = st.Val
+											nSt++
+										}
+									}
+								}
+							}
+						}
+						if nSt == 1 {
+							v := stripConv(stored)
+							r, ch := fieldChain(v)
+							c.ops[k] = eqOperand{v, r, append(append([]*types.Var{}, ch...), chain[1:]...)}
+							continue
+						}
+					}
+				}
+				r, ch := fieldChain(arg)
+				c.ops[k] = eqOperand{nil, r, append(append([]*types.Var{}, ch...), chain...)}
+			}
+			if good {
+				out = append(out, c)
+			}
+		}
+	}
+	return out
 }
